@@ -283,6 +283,31 @@ void eval_gscon(Ctx &x, int opi, const OpSpec &op) {
     if (!(rcond <= hi * (1 + tau))) add_viol(o, "C12", "rcond_above_estimator_upper_bound", fmt("?gscon('%c'): rcond=%.6Le > 1/(|A||inv(A)e/n|)=%.6Le", nm, rcond, hi), opi);
 }
 
+// Was the zero pivot the library reported at column k (0-based, A*Pc order) a zero at rounding level?  With the returned factors the candidates of
+// column k are r_i = (Pr A Pc)(i,k) - sum_{j<k} L(i,j) U(j,k), i >= k, evaluated here in extended precision; each was computed by the library
+// with an error of about k eps (|a_ik| + sum |l_ij||u_jk|).  If every |r_i| is below that (or in the underflow range of the working precision), an
+// exactly zero candidate set is what finite-precision elimination legitimately produces - exact cancellation, however unlikely for "generic" values,
+// does occur at the volume of the thorough tier (about once per million single-precision runs) - and nothing can be asserted about its position.
+bool zero_pivot_at_rounding_level(Ctx &x, long k) {
+    Case &c = x.c; int n = c.M.n;
+    if (k < 0 || k >= n) return false;
+    std::vector<int> pr = x.drv->get_perm_r(), pc = x.drv->get_perm_c();
+    if (!is_perm(pr, n) || !is_perm(pc, n) || !x.drv->have_LU()) return false;
+    LUDump d; x.drv->dump_LU(d);
+    Dense L, U;
+    if (!d.ok || !expand_LU(d, L, U)) return false;
+    Dense Md = csc_to_dense(c.M, x.drv->get_A_values());
+    ld eps = eps_eff(c.prec), floor_ = (prec_is_single(c.prec) ? (ld)1.1754944e-38L : (ld)2.2250738585072014e-308L) * (n + 1) / eps;
+    std::vector<int> ipr(n), ipc(n); for (int i = 0; i < n; ++i) { ipr[pr[i]] = i; ipc[pc[i]] = i; }
+    ld rmax = 0, smax = 0;
+    for (int i = (int)k; i < n; ++i) {
+        cld a = Md.at(ipr[i], ipc[k]); cld r = a; ld sc = absl_(a);
+        for (int j = 0; j < k; ++j) { r -= L.at(i, j) * U.at(j, (int)k); sc += absl_(L.at(i, j)) * absl_(U.at(j, (int)k)); }
+        rmax = std::max(rmax, absl_(r)); smax = std::max(smax, sc);
+    }
+    return rmax <= 16.0L * (k + 2) * eps * smax + floor_;
+}
+
 // C06: singular inputs.  k* = first column (A*Pc order, 0-based) at which the library itself saw an all-zero candidate set.
 void eval_singular(Ctx &x, int opi, const OpSpec &op, long info, const XOut &xo, uint64_t b_hash0, uint64_t x_hash0, const std::vector<cld> &Bin) {
     Case &c = x.c; Outcome &o = x.out; int n = c.M.n;
@@ -321,7 +346,8 @@ void eval_singular(Ctx &x, int opi, const OpSpec &op, long info, const XOut &xo,
         else if (infof < ks) {
             // between the first structurally rank-deficient leading block (hall) and the first structurally empty candidate set
             // the exact-arithmetic zero shows as cancellation: an exact floating-point zero there is legitimate, before it is not
-            if (generic && !dup && !(hall > 0 && infof >= hall)) add_viol(o, "C06", "info_before_structural_deficiency", fmt("generic values: leading blocks are structurally nonsingular up to column %ld (first structurally empty candidate set at %ld) but info=%ld", hall, ks, info), opi);
+            if (generic && !dup && !(hall > 0 && infof >= hall) && zero_pivot_at_rounding_level(x, infof - 1)) o.excl["cancellation_zero_at_rounding_level"]++;
+            else if (generic && !dup && !(hall > 0 && infof >= hall)) add_viol(o, "C06", "info_before_structural_deficiency", fmt("generic values: leading blocks are structurally nonsingular up to column %ld (first structurally empty candidate set at %ld) but info=%ld", hall, ks, info), opi);
             else o.excl[generic && !dup ? "cancellation_zero_before_structural_zero" : "nongeneric_early_zero"]++;
         }
     } else if (hall > 0) {
@@ -331,7 +357,8 @@ void eval_singular(Ctx &x, int opi, const OpSpec &op, long info, const XOut &xo,
         if (dup) o.excl["inexact_cancellation_class"]++;
         else if (generic) {
             const RefInfo &ri = ref_for(x, op.values_id, csc_to_dense(c.M, vals));
-            if (!ri.singular && ri.cond1 * n * prec_eps(c.prec) < 0.01L) add_viol(o, "C06", "singular_reported_on_nonsingular", fmt("info=%ld cond1=%.3Le", info, ri.cond1), opi);
+            if (!ri.singular && ri.cond1 * n * prec_eps(c.prec) < 0.01L && zero_pivot_at_rounding_level(x, infof - 1)) o.excl["cancellation_zero_at_rounding_level"]++;
+            else if (!ri.singular && ri.cond1 * n * prec_eps(c.prec) < 0.01L) add_viol(o, "C06", "singular_reported_on_nonsingular", fmt("info=%ld cond1=%.3Le", info, ri.cond1), opi);
             else o.excl["numerically_singular"]++;
         } else o.excl["nongeneric_values"]++;
     }
